@@ -16,10 +16,6 @@ Definition RA : akern R :=
      a_nema := An_nema;
      a_minutes := An_minutes |}.
 
-(* "constraint c is requested": constraint_ids=None requests every constraint *)
-Definition requested (ids : option (list Z)) (c : Z) : bool :=
-  match ids with None => true | Some l => zmem c l end.
-
 (* the recorded matrix of a ledger run, station-major as Simulator.charging_rates *)
 Definition station_major (by_period : list (list R)) (n : nat) : list (list R) :=
   map (fun s => map (fun col => nth s col 0) by_period) (seq 0 n).
